@@ -9,7 +9,7 @@
 From Coq Require Import String Ascii.
 From Coq Require Import NArith ZArith List Bool.
 From PyIpmi Require Import Lib.Res Lib.Bytes Lib.Prog Model.ApiSem Model.Bmc Gen.ApiContent Model.ApiRun
-  Proofs.ApiRunProofs Proofs.C07Pure Proofs.C07Lan Proofs.C07Chassis Proofs.C07Picmg Proofs.C07Sensor Proofs.C07App.
+  Proofs.ApiRunProofs Proofs.C07Pure Proofs.C07Lan Proofs.C07Chassis Proofs.C07Picmg Proofs.C07Sensor Proofs.C07App Proofs.C07Port.
 Import ListNotations.
 Open Scope string_scope.
 Open Scope list_scope.
@@ -175,6 +175,42 @@ Theorem C07_write_read_user_name_partial : forall s uid nm, List.In uid uids -> 
     call "get_username" [arg "userid" uid] s1 = (r2, s1) /\ same r2 (Ok (PBytes (pad16 nm))).
 Proof. exact write_read_username. Qed.
 Print Assumptions C07_write_read_user_name_partial.
+
+(* PICMG port state: the link descriptor with all four lanes - every value of each component (16 lane sets,
+   64 channels, 4 interfaces, 16 types / classes / extensions, 256 grouping ids; others at a base value) *)
+Theorem C07_write_read_port_state_partial : forall s l st, List.In (l, st) port_cases ->
+  let s1 := put s (K_PORT, l_if l, l_ch l) (link_info l ++ [st]) in
+  exists r1 r2,
+    call "set_port_state" [("link_descr", link_obj l); arg "state" st] s = (r1, s1) /\ same r1 (Ok PNone) /\
+    call "get_port_state" [arg "channel_number" (l_ch l); arg "channel_interface" (l_if l)] s1 = (r2, s1) /\
+    same r2 (Ok (PList [link_obj l; PInt (Z.of_N st)])).
+Proof. exact write_read_port. Qed.
+Print Assumptions C07_write_read_port_state_partial.
+
+(* channel signaling class: every (interface, channel) with class 5; every class on three channels *)
+Theorem C07_write_read_signaling_class_partial : forall s itf ch cl, List.In (itf, ch, cl) sig_cases ->
+  let s1 := put s (K_SIGCLASS, itf, ch) [cl] in
+  exists r1 r2,
+    call "set_signaling_class" [arg "interface" itf; arg "channel" ch; arg "signaling_class" cl] s = (r1, s1) /\
+    same r1 (Ok PNone) /\
+    call "get_signaling_class" [arg "interface" itf; arg "channel" ch] s1 = (r2, s1) /\ same r2 (Ok (PInt (Z.of_N cl))).
+Proof. exact write_read_sig. Qed.
+Print Assumptions C07_write_read_signaling_class_partial.
+
+(* MicroTCA power channel: enable / disable payload power, then the channel status; every current limit 0..25 A,
+   every prior status byte 0..127 *)
+Theorem C07_write_read_power_channel_partial : forall s ch en lim pri bak st0,
+  List.In (ch, en, lim, pri, bak, st0) pwr_cases ->
+  get s (K_PWRCHST, ch, 0) = [st0] -> get s (K_PMGLOBAL, 0, 0) = [16; 6] ->
+  let st1 := setbit st0 4 (if en then 1 else 0) in
+  let s1 := put (put s (K_PWRCHST, ch, 0) [st1]) (K_PWRCHCTL, ch, 0) [10 * lim; pri; bak] in
+  exists r1 r2,
+    call "send_channel_power" [arg "channel" ch; ("enable", PBool en); arg "current_limit" lim;
+                               arg "primary_pm" pri; arg "backup_pm" bak] s = (r1, s1) /\
+    same r1 (Ok (PObj "SendPowerChannelControl" [("completion_code", PInt 0); ("picmg_identifier", PInt 0)])) /\
+    call "get_power_channel_status" [arg "start" ch] s1 = (r2, s1) /\ same r2 (Ok (pwr_status st1)).
+Proof. exact write_read_power. Qed.
+Print Assumptions C07_write_read_power_channel_partial.
 
 (* non-vacuity: the domains are inhabited and a concrete history runs *)
 Example C07_somewhere :
